@@ -193,8 +193,9 @@ class Field:
         if dof_n == 1:
             return array
         else:
-            newArray = FeArray.zeros(Ne, nPg, dim, dof_n, dtype=float)
-            newArray[..., :, dof] = array
+            # grad(u)_ij = du_i/dx_j, as in the evaluated mode above (Get_Gradient_e_pg)
+            newArray = FeArray.zeros(Ne, nPg, dof_n, dim, dtype=float)
+            newArray[..., dof, :] = array
             return newArray
 
     def Evaluate_e(
